@@ -55,6 +55,14 @@ def check_codes(ctx):
     ctx.ob("C17.T1", "SecsIProtocol", ok, "handshake codes ENQ 0x05, EOT 0x04, ACK 0x06, NAK 0x15" if ok else f"handshake codes {got} differ from E4 {ref['codes']}", where=cls.where)
 
 
+def _is_peek(call, position) -> bool:
+    """peek=True, as a keyword or as the positional argument at `position` (ByteQueue.wait_for(size, peek) / wait_for_byte(peek))."""
+    for k in call.keywords:
+        if k.arg == "peek":
+            return isinstance(k.value, ast.Constant) and k.value.value is True
+    return len(call.args) > position and isinstance(call.args[position], ast.Constant) and call.args[position].value is True
+
+
 def check_receive(ctx):
     repo = ctx.repo
     f = repo.method("SecsIProtocol", "_process_received_data", inherited=False)
@@ -70,14 +78,13 @@ def check_receive(ctx):
     ctx.ob("C17.P1", q, ok, "EOT is sent before the block is awaited" if ok else "the block is awaited without a preceding EOT (the sender never starts)", key="eot-first", where=f.where)
     if reads:
         rn, rc = reads[0]
-        lenvars = {t.id for n in cfg.real_nodes() if isinstance(n.ast, ast.Assign) and any(call_name(c) == "self._receive_buffer.wait_for_byte" and any(k.arg == "peek" and isinstance(k.value, ast.Constant) and k.value.value is True for k in c.keywords) for c in n.calls) for t in n.ast.targets if isinstance(t, ast.Name)}
+        lenvars = {t.id for n in cfg.real_nodes() if isinstance(n.ast, ast.Assign) and any(call_name(c) == "self._receive_buffer.wait_for_byte" and _is_peek(c, 0) for c in n.calls) for t in n.ast.targets if isinstance(t, ast.Name)}
         extra = 1 + struct.calcsize(">" + repo.const("SecsIBlock", "checksum_format"))
         a = rc.args[0] if rc.args else None
         ok = isinstance(a, ast.BinOp) and isinstance(a.op, ast.Add) and ((norm(a.left) in lenvars and isinstance(a.right, ast.Constant) and a.right.value == extra) or (norm(a.right) in lenvars and isinstance(a.left, ast.Constant) and a.left.value == extra))
         ctx.ob("C17.P1", q, ok, f"the block read waits for length byte + {extra} bytes (length byte itself + checksum), however the line chunks them" if ok else
                f"the block read takes `{norm(a) if a is not None else None}` bytes; a block is its length byte value + {extra} bytes (length byte + 2 checksum bytes): the cursor drifts", key="block-size", where=f.where)
-        kw = {k.arg: k.value for k in rc.keywords}
-        ok = not (isinstance(kw.get("peek"), ast.Constant) and kw["peek"].value)
+        ok = not _is_peek(rc, 1)
         ctx.ob("C17.P1", q, ok, "the block bytes are consumed" if ok else "the block is only peeked: it is read again as the next block", key="consumes", where=f.where)
         ok = bool(lenvars)
         ctx.ob("C17.P1", q, ok, "the length byte is looked at without consuming it (it belongs to the block)" if ok else "the length byte is consumed before the block read (the block starts one byte late)", key="length-peek", where=f.where)
